@@ -1,7 +1,7 @@
 /-
 C14 — property theorems: modules expose exactly what they provide and are instantiated once.
 
-Model: `Model.lean`.  All theorems quantify over every module id / name, every require spec (any nesting
+Models: `Model.lean` (§1–§5, §8), `Contract.lean` (§6), `Prune.lean` (§7), `Macros.lean` (§9).  All theorems quantify over every module id / name, every require spec (any nesting
 of `only-in` / `prefix-in`), every acyclic module graph (modules listed in dependency order) and every
 sequence of evaluation requests, failing ones included; nothing is bounded.
 -/
@@ -9,6 +9,7 @@ import SteelVerif.C14.LemmasRefC
 import SteelVerif.C14.GenConsts
 import SteelVerif.C14.LemmasContract
 import SteelVerif.C14.Prune
+import SteelVerif.C14.Macros
 namespace SteelVerif.C14
 
 /-! ## 0. What the model takes from the source (regenerated from /repo on every run) -/
@@ -434,6 +435,25 @@ def RefinesOn (fix : Fix) (g : Graph) (reqs : List Request) : Prop :=
   (runM fix g {} reqs).2 = (runS g (sBuild g) {} reqs).2 ∧
     Agree g (sBuild g) (runM fix g {} reqs).1 (runS g (sBuild g) {} reqs).1
 
+/-- The refinement for every variant of the mechanism that rolls both tables back and mangles contract imports
+(the code as it is, and the code with the modifiers composed): the guard on the require specs is `specOK fix.compose`. -/
+theorem whole_request_refinement_gen (fix : Fix) (hfr : fix.rollback = true) (hfc : fix.contractImports = true)
+    (g : Graph) (reqs : List Request) (hg : graphGuard fix.compose g = true)
+    (hr : ∀ r ∈ reqs, reqGuard fix.compose g (sBuild g) r = true) : RefinesOn fix g reqs := by
+  obtain ⟨hs, hrel⟩ := run_refines fix hfr hfc hg reqs {} {} hr (rel_init g (sBuild g))
+  refine ⟨hs, hrel.top, ?_, ?_⟩
+  · intro k
+    unfold IM.count
+    rw [List.Nodup.count hrel.kinv.nd]
+    by_cases hk : k ∈ (runM fix g {} reqs).1.im.inst
+    · simp [hk, (hrel.inst k).mp hk]
+    · have hk' : k ∉ (runS g (sBuild g) {} reqs).1.inst := fun h => hk ((hrel.inst k).mpr h)
+      simp [hk, hk']
+  · intro k hk
+    unfold mView
+    rw [hrel.views k ((hrel.inst k).mpr hk)]
+    rfl
+
 /-- **M ⊑ S on whole requests** (the code as it is, `fix = {}`): for every acyclic module graph, every
 sequence of evaluation requests and every pattern of failing requests (macro mismatch, free identifier,
 runtime error), as long as the require specs are in the fragment on which flattening and composing agree
@@ -445,21 +465,36 @@ as S does, has evaluated exactly the module bodies S says are instantiated, each
 inside a module body resolves to what the module's own environment under S holds: its own definition if it
 has one (whatever other modules or the program call theirs), otherwise the import that was bound last.
 Since every prefix of a request sequence is a request sequence, this holds after every request. -/
-theorem whole_request_refinement_partial (g : Graph) (reqs : List Request) (hg : graphGuard g = true)
-    (hr : ∀ r ∈ reqs, reqGuard g (sBuild g) r = true) : RefinesOn {} g reqs := by
-  obtain ⟨hs, hrel⟩ := run_refines hg reqs {} {} hr (rel_init g (sBuild g))
-  refine ⟨hs, hrel.top, ?_, ?_⟩
-  · intro k
-    unfold IM.count
-    rw [List.Nodup.count hrel.kinv.nd]
-    by_cases hk : k ∈ (runM {} g {} reqs).1.im.inst
-    · simp [hk, (hrel.inst k).mp hk]
-    · have hk' : k ∉ (runS g (sBuild g) {} reqs).1.inst := fun h => hk ((hrel.inst k).mpr h)
-      simp [hk, hk']
-  · intro k hk
-    unfold mView
-    rw [hrel.views k ((hrel.inst k).mpr hk)]
-    rfl
+theorem whole_request_refinement_partial (g : Graph) (reqs : List Request) (hg : graphGuard false g = true)
+    (hr : ∀ r ∈ reqs, reqGuard false g (sBuild g) r = true) : RefinesOn {} g reqs :=
+  whole_request_refinement_gen {} rfl rfl g reqs hg hr
+
+/-- **… and the modifiers are the only point in which the mechanism and S part** (inside the other two guards):
+the same machine with the require modifiers COMPOSED instead of flattened (`Fix.compose`, what repairing K14c
+would give) equals S for EVERY nesting of `only-in` / `prefix-in` / renaming that is well-formed under S — no
+restriction to a fragment. -/
+theorem whole_request_refinement_composed (g : Graph) (reqs : List Request) (hg : graphGuard true g = true)
+    (hr : ∀ r ∈ reqs, reqGuard true g (sBuild g) r = true) : RefinesOn { compose := true } g reqs :=
+  whole_request_refinement_gen { compose := true } rfl rfl g reqs hg hr
+
+/-- Non-vacuity of `whole_request_refinement_composed`: the three nestings on which the code and S differ
+(`flat_differs_from_composition`) are inside its guard, and the composed machine gives S's answers on them. -/
+example :
+    let g : Graph := [⟨[['x'], ['y']], [⟨['x'], false⟩, ⟨['y'], false⟩], [], []⟩]
+    let reqs : List Request :=
+      [{ specs := [.onlyIn (.prefixIn ['a', '.'] (.path 0)) [(['a', '.', 'x'], none)]] },
+       { specs := [.onlyIn (.path 0) []] },
+       { specs := [.onlyIn (.onlyIn (.path 0) [(['x'], none), (['y'], none)]) [(['x'], some ['z'])]] }]
+    graphGuard true g = true ∧ (∀ r ∈ reqs, reqGuard true g (sBuild g) r = true) ∧
+    (runM { compose := true } g {} reqs).2 = [.ok, .ok, .ok] ∧
+    ((runM { compose := true } g {} reqs).1.tbl.lookup ['a', '.', 'x'],
+     (runM { compose := true } g {} reqs).1.tbl.lookup ['z'],
+     (runM { compose := true } g {} reqs).1.tbl.lookup ['y']) =
+      (some ⟨.mod 0, ['x'], false⟩, some ⟨.mod 0, ['x'], false⟩, none) := by
+  refine ⟨by decide, ?_, by decide, by decide⟩
+  intro r hr
+  simp only [List.mem_cons, List.mem_nil_iff, or_false] at hr
+  rcases hr with rfl | rfl | rfl <;> decide
 
 /-- The full statement — no guard on the require specs — is false for the code as it is (open finding K14c):
 `m0` provides `x`; the program `(require (only-in (prefix-in a. "m0") x))` runs on the flat machine (which
@@ -475,7 +510,7 @@ requires `m0` and defines the (escaped) identifier `##mm0__%#__x` changes what `
 theorem whole_request_refinement_fails_escaped :
     let g : Graph := [⟨[['x']], [⟨['x'], false⟩], [], [['x']]⟩]
     let reqs : List Request := [{ specs := [.path 0], defs := [mangle 0 ['x']] }]
-    graphGuard g = true ∧
+    graphGuard false g = true ∧
     mView (runM {} g {} reqs).1 0 = [(['x'], some ⟨.top 0, mangle 0 ['x'], false⟩)] ∧
     sView g (sBuild g) 0 = [(['x'], some ⟨.mod 0, ['x'], false⟩)] := by
   decide
@@ -497,8 +532,8 @@ def clashReqs : List Request :=
    { specs := [.path 2, .prefixIn ['a', '.'] (.path 1)], defs := [['x']] },
    { specs := [.path 0], mode := .failRuntime }]
 
-theorem clash_in_guard : graphGuard clashGraph = true ∧
-    ∀ r ∈ clashReqs, reqGuard clashGraph (sBuild clashGraph) r = true := by
+theorem clash_in_guard : graphGuard false clashGraph = true ∧
+    ∀ r ∈ clashReqs, reqGuard false clashGraph (sBuild clashGraph) r = true := by
   refine ⟨by decide, ?_⟩
   intro r hr
   simp only [clashReqs, List.mem_cons, List.mem_nil_iff, or_false] at hr
@@ -526,15 +561,13 @@ example :
 
 /-- **Which binding wins inside a module (S, hence M in the guard): the module's own definition**, whatever
 it imports under the same name. -/
-theorem own_definition_shadows_imports {g : Graph} (hg : graphGuard g = true) (k : Nat) (d : Name)
+theorem own_definition_shadows_imports {c : Bool} {g : Graph} (hg : graphGuard c g = true) (k : Nat) (d : Name)
     (hd : d ∈ (g.mod k).defs) : (senv (sBuild g) k).lookup d = some ⟨.mod k, d, false⟩ := by
   obtain ⟨hwf, hG⟩ := guard_all hg
   have hmg := hG k
   simp only [modGuard, Bool.and_eq_true, List.all_eq_true] at hmg
-  have hall : ∀ s ∈ (g.mod k).reqs, ∃ l, s.importsS (sExports (sBuild g)) = some l := by
-    intro s hs
-    obtain ⟨l, hl, _⟩ := bind_same (sExports (sBuild g)) s (hmg.1 s hs)
-    exact ⟨l, hl⟩
+  have hall : ∀ s ∈ (g.mod k).reqs, ∃ l, s.importsS (sExports (sBuild g)) = some l :=
+    fun s hs => specOK_some (hmg.1 s hs)
   rw [(senv_eq hwf k hall).1, List.reverse_append, List.lookup_append, ← List.map_reverse]
   have : ((g.mod k).defs.reverse.map fun d => (d, (⟨.mod k, d, false⟩ : Val))).lookup d =
       some ⟨.mod k, d, false⟩ := by
@@ -554,8 +587,8 @@ theorem own_definition_shadows_imports {g : Graph} (hg : graphGuard g = true) (k
 
 /-- … and the flat machine agrees: after any request sequence in the guard, a module body that ran reads its
 own definition under every name it defines (corollary of the refinement; `views` lists the names read). -/
-theorem module_reads_own_definition (g : Graph) (reqs : List Request) (hg : graphGuard g = true)
-    (hr : ∀ r ∈ reqs, reqGuard g (sBuild g) r = true) (k : Nat)
+theorem module_reads_own_definition (g : Graph) (reqs : List Request) (hg : graphGuard false g = true)
+    (hr : ∀ r ∈ reqs, reqGuard false g (sBuild g) r = true) (k : Nat)
     (hk : k ∈ (runS g (sBuild g) {} reqs).1.inst) (d : Name) (hd : d ∈ (g.mod k).defs)
     (hv : d ∈ (g.mod k).views) :
     (d, some ⟨.mod k, d, false⟩) ∈ mView (runM {} g {} reqs).1 k := by
@@ -724,39 +757,163 @@ theorem require_forms_match_source :
     Gen.requireForms = ["only-in", "prefix-in", "for-syntax"] ∧ Gen.requireOtherListIsError = true ∧
     Gen.forSyntaxTakesStringOnly = true := by decide
 
+/-! ## 9. Macros provided by modules -/
+
+theorem lookup_filter_ne (k k' : Name) (h : k' ≠ k) : ∀ (l : List (Name × Val)),
+    (l.filter fun e => e.1 != k).lookup k' = l.lookup k' := by
+  intro l
+  induction l with
+  | nil => rfl
+  | cons e l ih =>
+    obtain ⟨a, v⟩ := e
+    by_cases ha : a = k
+    · subst ha
+      have : (k' == a) = false := by simpa using h
+      simp [List.lookup_cons, this, ih]
+    · have hne : (a != k) = true := by simpa using ha
+      simp only [List.filter_cons, hne, if_true, List.lookup_cons, ih]
+
+theorem lookup_minsert (l : List (Name × Val)) (k k' : Name) (v : Val) :
+    (minsert l k v).lookup k' = if k' = k then some v else l.lookup k' := by
+  unfold minsert
+  rw [List.lookup_append]
+  by_cases h : k' = k
+  · subst h
+    have : (l.filter fun e => e.1 != k').lookup k' = none := by
+      apply lookup_none_of_not_mem_keys
+      intro hm
+      obtain ⟨e, he, hk⟩ := List.mem_map.mp hm
+      have := (List.mem_filter.mp he).2
+      simp [hk] at this
+    simp [this, List.lookup_cons]
+  · have hb : (k' == k) = false := by simpa using h
+    rw [lookup_filter_ne k k' h]
+    cases l.lookup k' <;> simp [h, List.lookup_cons, hb]
+
+theorem lookup_foldl_minsert (t : Nat) : ∀ (L : List Name) (acc : List (Name × Val)) (n : Name),
+    (L.foldl (fun a m => minsert a m ⟨.mod t, m, false⟩) acc).lookup n =
+      if n ∈ L then some ⟨.mod t, n, false⟩ else acc.lookup n := by
+  intro L
+  induction L with
+  | nil => intro acc n; simp
+  | cons m L ih =>
+    intro acc n
+    simp only [List.foldl_cons, ih, lookup_minsert, List.mem_cons]
+    by_cases h1 : n ∈ L
+    · simp [h1]
+    · by_cases h2 : n = m
+      · subst h2; simp [h1]
+      · simp [h1, h2]
+
+/-- **A require without modifiers brings exactly the provided macros of the module into scope, under their own
+names, bound to the module's macros** — the code as it is, for every module (however its macros are provided:
+as identifiers or through `for-syntax`; private macros are not among them). -/
+theorem macro_scope_plain (g : Graph) (mg : MacGraph) (t : Nat) (n : Name) :
+    (macScopeM {} g mg ⟨t, [], []⟩).lookup n = (providedMacros false g mg t).lookup n ∧
+    ((providedMacros false g mg t).lookup n =
+      if n ∈ ((mg.mod t).fsProv ++ (mg.mod t).plainProv).filter (fun m => (effMacs false g mg t).contains m)
+      then some ⟨.mod t, n, false⟩ else none) := by
+  have hp : ∀ m, (providedMacros false g mg t).lookup m =
+      if m ∈ ((mg.mod t).fsProv ++ (mg.mod t).plainProv).filter (fun m => (effMacs false g mg t).contains m)
+      then some ⟨.mod t, m, false⟩ else none := by
+    intro m
+    unfold providedMacros
+    simp only [lookup_foldl_minsert]
+    rfl
+  refine ⟨?_, hp n⟩
+  unfold macScopeM
+  simp only [MacFix.modifiers, Bool.false_eq_true, if_false, List.isEmpty_nil, Bool.not_true, ne_eq,
+    not_true_eq_false, lookup_foldl_minsert]
+  split
+  · rename_i hmem
+    have : n ∈ ((mg.mod t).fsProv ++ (mg.mod t).plainProv).filter
+        (fun m => (effMacs false g mg t).contains m) := by
+      rw [List.mem_filter] at hmem ⊢
+      exact ⟨List.mem_append_right _ hmem.1, hmem.2⟩
+    rw [hp, if_pos this]
+  · rfl
+
+/-- Open finding K14e: with modifiers the code and S part.  `m0` provides `mq` through `for-syntax` and `mr` as an
+identifier: under `(prefix-in a. "m0")` the code binds `mq` and `a.mr` (S: `a.mq`, `a.mr`); under
+`(only-in "m0" mr)` it binds `mq` as well (S: `mr` only).  With the repair (`modifiers`) both are what S says. -/
+theorem macro_modifiers_differ :
+    let mg : MacGraph := [{ macs := [['m', 'q'], ['m', 'r']], fsProv := [['m', 'q']], plainProv := [['m', 'r']] }]
+    let g : Graph := [⟨[], [], [], []⟩]
+    let keys := fun (fix : MacFix) (s : Spec) => (macScope fix g mg s).map (·.1)
+    keys {} (.prefixIn ['a', '.'] (.path 0)) = [['m', 'q'], ['a', '.', 'm', 'r']] ∧
+    keys { modifiers := true } (.prefixIn ['a', '.'] (.path 0)) = [['a', '.', 'm', 'q'], ['a', '.', 'm', 'r']] ∧
+    keys {} (.onlyIn (.path 0) [(['m', 'r'], none)]) = [['m', 'q'], ['m', 'r']] ∧
+    keys { modifiers := true } (.onlyIn (.path 0) [(['m', 'r'], none)]) = [['m', 'r']] := by decide
+
+/-- Open finding K14f: a request that fails to compile leaves the macros of its requires in the engine's macro
+environment (the module table is rolled back: `instantiated_once`); with the repair it leaves nothing. -/
+theorem macro_rollback_differs :
+    let mg : MacGraph := [{ macs := [['m', 'q']], fsProv := [['m', 'q']] }]
+    let g : Graph := [⟨[], [], [], []⟩]
+    (macStep {} g mg [] [.path 0] .errSyntax).map (·.1) = [['m', 'q']] ∧
+    macStep { rollback := true } g mg [] [.path 0] .errSyntax = [] ∧
+    (macStep { rollback := true } g mg [] [.path 0] .ok).map (·.1) = [['m', 'q']] := by decide
+
+/-- Open finding K14g: inside a module that defines its own macro `mq` and requires a module that provides a macro
+`mq`, `mq` denotes the imported one (for values the module's own definition wins:
+`own_definition_shadows_imports`); and a macro of the module that a plainly required module also provides as an
+identifier is removed from the module altogether (it is not even exported).  With the repair the own macro wins. -/
+theorem macro_own_displaced :
+    let mg : MacGraph := [{ macs := [['m', 'q']], plainProv := [['m', 'q']] },
+                          { macs := [['m', 'q']], fsProv := [['m', 'q']] }]
+    let g : Graph := [⟨[], [], [], []⟩, ⟨[], [], [.path 0], []⟩]
+    macViewM {} g mg 1 ['m', 'q'] = some ⟨.mod 0, ['m', 'q'], false⟩ ∧
+    providedMacros false g mg 1 = [] ∧
+    macViewM { ownFirst := true } g mg 1 ['m', 'q'] = some ⟨.mod 1, ['m', 'q'], false⟩ ∧
+    (providedMacros true g mg 1).map (·.1) = [['m', 'q']] := by decide
+
 /-! ## Clauses of the property not carried by a theorem
 
-* "Code that requires a module can refer to exactly the names the module provides … and to nothing else of it":
-  `visible_iff_provided(_graph)` characterises the BOUND names of the flattened require; "nothing else" rests
-  on `mangle_not_user_writable`, which is about identifiers the reader produces from plain text — false for
-  `|##mm…|`-escaped identifiers (K14d).  When two requires (or a require and a define) bind the same name, which
-  one wins (`visible`: later entries shadow) is not a theorem.
-* "after any only-in / prefix-in / renaming modifiers … all combinations of require modifiers": the code FLATTENS
-  nested modifiers; the specification composes them.  They agree on the documented fragment
-  (`flat_agrees_with_composition`) and differ outside it (`flat_differs_from_composition`, open finding K14c).
-  `rename-in` / `except-in`-style forms other than the `(from to)` entries of `only-in`, `for-syntax` requires and
-  provided MACROS are not modelled.
-* "private definitions of different modules, and of the requiring program, never interfere": theorems about the
-  KEYS written (`module_isolation`, `program_isolation`, `privates_disjoint`).  That every READ inside a module
-  body resolves to the module's own definition or its import — the whole-request agreement of the flat machine
-  `evalRequestM` / `resolveView` with the per-module environments `evalRequestS` / `sView`, including the
-  re-export / leak cases the model reports as `undetermined` — is NOT a theorem; it is compared by the driver on
-  generated graphs and against the real engine.
-* "A module's body is evaluated exactly once per engine": `instantiated_once` is about the instantiation machine
-  `runRequestsI`, in which whether a request fails is an INPUT (`Mode`); that the real compile / build / run
-  failures are those modes, that files do not change on disk between requests, and requests whose module bodies
-  refer to unbound names (`extraFree`, decided by the flat machine) are outside it.  Module bodies whose
-  evaluation itself raises an error half-way are not modelled (`failRuntime` = the LAST expression of the main
-  program fails).
-* "values attached with contracts are checked at the module boundary only": `contract_at_boundary_only` /
-  `provided_def_exported` track one flag (`contracted`) through definition, export and import; the checking
-  itself (`contracts.scm`: blame, higher-order wrapping, that a call from inside the module is not checked) is not
-  modelled.
-* Unused-import pruning (`remove_unused_globals_with_prefix`): modelled in `modRefs`; that it never drops a used
-  import is implicit in `good_request_runs` (no missing `__module-…` table) only for the uses the model knows
-  (`views`, provides).
-* Cyclic requires (rejected by the code), `(require-builtin …)`, dylibs, cogs search paths.
+* "Code that requires a module can refer to exactly the names the module provides … and to nothing else of it", "private
+  definitions … never interfere", reads inside module bodies, which binding wins on a clash: now carried, for VALUES, by
+  `whole_request_refinement_partial` (M = S on whole requests: status, every source identifier's binding, every read inside
+  every instantiated module, instantiation counts) with `own_definition_shadows_imports` / `module_reads_own_definition` —
+  INSIDE the decidable guard `graphGuard` / `reqGuard`.  Outside it: require specs off the fragment `canonical2` (the code
+  flattens, S composes: `whole_request_refinement_fails`, open finding K14c; the machine with the modifiers composed —
+  `Fix.compose`, the driver's variant `m` — equals S on ALL specs that are well-formed under S:
+  `whole_request_refinement_composed`; that it also answers `err:require` exactly when S does is compared by the driver only);
+  identifiers written as `|##mm…|` (`whole_request_refinement_fails_escaped`, K14d); modules that refer to a name that is
+  not bound in them (it is looked up in the global namespace of whatever program is running — values AND macros, see the
+  harness experiments in the report; the model reports some of these as `undetermined`).
+* Require forms: `rename-in` / `except-in` / `for-syntax` around a spec do not exist (`require_forms_match_source`, corpus
+  t06).  `(require (for-syntax "m"))` is accepted and, on the real engine, behaves like `(require "m")` (values and macros are
+  both bound); it is not a constructor of `Spec` and is not generated.
+* MACROS provided by modules (`(provide m)`, `(provide (for-syntax m))`): modelled as a separate layer (`Macros.lean`:
+  `macScopeM` = `find_in_scope_macros`, `macStep` = the engine's macro environment, `macViewM` = the overlays of a module
+  compilation) that is not part of `evalRequestM`, hence not of the refinement theorem (its guard excludes modules with
+  macros).  Proved: `macro_scope_plain` (a require without modifiers binds exactly the provided macros).  The code violates
+  the property here in three ways, all open findings with witnesses by `decide` and generated cases on the real engine:
+  K14e (`macro_modifiers_differ`), K14f (`macro_rollback_differs`), K14g (`macro_own_displaced`).  NOT modelled: what a
+  macro expands to (C13), module bodies in which several names share one top-level expression — there a required module's
+  complete macro map, private macros included, is applied to the whole expression once one of its provided macros fired
+  (candidate finding K14h, findings/C14-K14h.raw; the harness probes every name in an expression of its own) —,
+  `define-syntax` in the requiring program, `defmacro` / kernel macros, re-export of an imported macro.
+* "A module's body is evaluated exactly once per engine": `instantiated_once` and the `count` clause of the refinement are
+  about machines in which whether a request fails is an INPUT (`Mode`); that the real compile / build / run failures are those
+  modes (the harness provokes them with a macro mismatch, a free identifier, `(error …)`; unknown require forms: corpus t06),
+  that files do not change on disk between requests, and module bodies whose evaluation itself raises an error half-way are
+  outside every theorem (`failRuntime` = the LAST expression of the main program fails).
+* "values attached with contracts are checked at the module boundary only": now carried by `contract_checked_at_boundary`
+  (M = S for every call through an export, table regenerated from contracts.scm), `contract_not_checked_inside`,
+  `contract_call_ok`, `contract_violation_stops_at_boundary`, with `contract_at_boundary_only` / `provided_def_exported` for
+  where the wrapper is attached — for contracts of order ≤ 2 over first-order values.  Not modelled: the blame labels and the
+  `parents` chain of `FunctionContract`, contracts in RANGE position that are function contracts, `define/contract`, the
+  combinators (`listof`, `and/c`, …; a flat contract is an opaque predicate), an export that passes through two
+  `contract/out` boundaries (`Val.contracted` is one flag, the generators re-export without a second contract), arity errors
+  of the specialised paths (a native arity error there, `Res.arity` here).  The number of predicate evaluations per call is
+  compared with the real engine (`#n` in the observations).
+* Unused-import pruning: `prune_keeps_used`, `prune_removes_only_unused_imports`, `prune_keeps_user_defines` are about the
+  removal sites read from `remove_unused_globals_with_prefix`; `usage_count` (the semantic analysis) and "mentioned by a macro"
+  are INPUTS of the model.  `modRefs` (which `__module-…` tables a module body still refers to after pruning) is a separate,
+  older model used only to name regressions of the roll-back repair.
+* Cyclic requires (rejected by the code), `(require-builtin …)`, dylibs, cogs search paths, `STEEL_HOME`.
 `only_in_unknown_ignored_M`, `flat_differs_from_composition`, `instantiated_once_legacy_fails`,
-`module_isolation_legacy_fails`, `example_diamond` are concrete witnesses / tests (by `decide`). -/
+`module_isolation_legacy_fails`, `example_diamond`, `whole_request_refinement_fails(_escaped)`, `clash_in_guard`,
+`macro_modifiers_differ`, `macro_rollback_differs`, `macro_own_displaced` are concrete witnesses / tests (by `decide`). -/
 
 end SteelVerif.C14
